@@ -16,11 +16,17 @@ TRUSTED = ["model: coq/Model/Randomize.v (shift/jitter/resample/shuffle for Ts a
            "records every draw and feeds the same numbers (as ticks) to the model; NumPy's contract low <= uniform(low, high) <= high and 'permutation returns a "
            "rearrangement of its argument' is NumPy's",
            "np.sort is modelled as a sorted permutation (Coq's mergesort); float % on the dyadic lattice is exact and agrees with Z.modulo for a positive divisor"]
-ASSUMPTIONS = ["inputs: Ts / TsGroup on a single-interval support [s, e], s < e, every timestamp inside it; an EMPTY Ts is outside the quantifier (pynapple gives it an empty support)",
+ASSUMPTIONS = ["inputs: Ts / TsGroup on a single-interval support [s, e], s < e, every timestamp inside it. pynapple gives every EMPTY series an empty support (base-class "
+               "invariant), so an empty Ts is never 'on a single-interval support'; it is nevertheless required to go through all four generators as every empty TsGroup member "
+               "does: no exception, nothing out, (empty) support kept - part (G), key empty_input=True. For the same reason an empty member's own support is not compared with the group's",
                "draws forced onto the dyadic lattice 2^-9 s for the model comparison (every float operation exact); runs with NumPy's real generator (seeded) are judged by the "
-               "statement-level oracle only",
+               "statement-level oracle, and jitter keep_tsupport=True also against the recorded draws (result = the t_k + d_k inside the support, to 1 ns; a mismatch is a disagreement)",
+               "jitter keep_tsupport=True (the count is not promised): read as 'the result is the jittered series restricted to the kept support' - every returned stamp is a distinct input "
+               "stamp moved by at most max_jitter, and an input stamp is missing only if a move of at most max_jitter can take it outside [s, e]",
                "TsGroup results whose support is RECOMPUTED (jitter keep_tsupport=False, shuffle): member counts are conserved only for members with >= 2 distinct result "
-               "timestamps and, for 2-member groups, away from a 1 us trim where the two recomputed supports touch (C20_*_refuted theorems; reported as findings)"]
+               "timestamps and, for 2-member groups, away from a 1 us trim where the two recomputed supports touch (C20_*_refuted theorems; reported as findings)",
+               "the statement does not promise the class or the order of the result: any object with .t and .time_support is accepted and its stamps are compared as a multiset "
+               "(the model comparison still pins the sorted order)"]
 
 U = 1953125                                   # 2^-9 s in ticks
 ORIGINS = (0, 100 * 10 ** 9, -50 * 10 ** 9)   # 0 s, 100 s, -50 s: all whole multiples of U
@@ -115,10 +121,15 @@ def mk_support(nap, s, e):
     return nap.IntervalSet(s / 1e9, e / 1e9)
 
 
+def in_support_of(ts, s, e):
+    """the time support of the INPUT Ts: [s, e], except that pynapple gives every empty series an empty support (base-class invariant)"""
+    return [(s, e)] if len(ts) else []
+
+
 def run_ts(nap, op, ts, s, e, p, dr):
     """-> ("ok", stamps, support) | ("exc", name)"""
     x = nap.Ts(G.arr(ts), time_support=mk_support(nap, s, e))
-    if canon_ts(x) != (list(ts), [(s, e)]):
+    if canon_ts(x) != (list(ts), in_support_of(ts, s, e)):
         raise RuntimeError("harness: could not build the input Ts %r on [%d, %d]" % (ts, s, e))
     try:
         with dr:
@@ -127,8 +138,8 @@ def run_ts(nap, op, ts, s, e, p, dr):
         return ("exc", type(ex).__name__)
     if dr.bad:
         raise RuntimeError("harness: " + dr.bad)
-    if type(r) is not nap.Ts:
-        return ("exc", "not a Ts: " + type(r).__name__)
+    if not (hasattr(r, "t") and hasattr(r, "time_support")):     # the class of the result is not part of the statement
+        return ("exc", "not a series of timestamps: " + type(r).__name__)
     return ("ok",) + canon_ts(r)
 
 
@@ -144,8 +155,8 @@ def run_group(nap, op, keys, tss, s, e, p, dr):
         return ("exc", type(ex).__name__)
     if dr.bad:
         raise RuntimeError("harness: " + dr.bad)
-    if type(r) is not nap.TsGroup:
-        return ("exc", "not a TsGroup: " + type(r).__name__)
+    if not (hasattr(r, "keys") and hasattr(r, "time_support") and hasattr(r, "__getitem__")):
+        return ("exc", "not a group of series: " + type(r).__name__)
     ks = [int(k) for k in r.keys()]
     gs = [(C.to_ns(a), C.to_ns(b)) for a, b in r.time_support.values]
     # ticks of support endpoints stored as NON-canonical floats (trimmed `end - 1e-6`, never re-rounded): DESIGN.md section 2
@@ -160,9 +171,24 @@ def diffs(l):
     return [b - a for a, b in zip(l, l[1:])]
 
 
+def matchable(out, cand, tol, droppable):
+    """is sorted `out` obtained from sorted `cand` by moving each kept candidate by at most tol and dropping only droppable ones?
+    (an order-preserving matching exists whenever any matching does: all windows have the same width)"""
+    m, n = len(out), len(cand)
+    f = [[False] * (n + 1) for _ in range(m + 1)]
+    f[0][0] = True
+    for j in range(1, n + 1):
+        f[0][j] = f[0][j - 1] and droppable[j - 1]
+    for i in range(1, m + 1):
+        for j in range(1, n + 1):
+            f[i][j] = (f[i][j - 1] and droppable[j - 1]) or (f[i - 1][j - 1] and abs(out[i - 1] - cand[j - 1]) <= tol)
+    return f[m][n]
+
+
 def oracle_member(op, ts, s, e, p, out, recomputed):
-    """list of (part, what) the statement promises and `out` (sorted result stamps) breaks"""
+    """list of (part, what) the statement promises and `out` (result stamps) breaks; the order of `out` is not part of the statement"""
     bad = []
+    out = sorted(out)
     if op in ("shift_timestamps", "resample_timestamps"):
         if len(out) != len(ts):
             bad.append(("count", "%d timestamps in, %d out" % (len(ts), len(out))))
@@ -171,6 +197,8 @@ def oracle_member(op, ts, s, e, p, out, recomputed):
     elif op == "shuffle_ts_intervals":
         if len(ts) and (not out or out[0] != ts[0]):
             bad.append(("first", "the first timestamp is not kept"))
+        if not len(ts) and out:
+            bad.append(("count", "0 timestamps in, %d out" % len(out)))
         if sorted(diffs(out)) != sorted(diffs(ts)):
             bad.append(("isi", "the multiset of inter-event intervals is not kept" if len(out) == len(ts) else
                         "%d timestamps in, %d out: the inter-event intervals are not kept" % (len(ts), len(out))))
@@ -179,15 +207,19 @@ def oracle_member(op, ts, s, e, p, out, recomputed):
         if recomputed:
             if len(out) != len(ts):
                 bad.append(("count", "support recomputed, yet %d timestamps in, %d out" % (len(ts), len(out))))
-            elif any(abs(a - b) > J for a, b in zip(sorted(out), ts)):
+            elif any(abs(a - b) > J for a, b in zip(out, ts)):
                 bad.append(("bound", "the k-th timestamp (sorted) moved by more than max_jitter"))
         else:
+            # support kept: the result is the jittered series restricted to [s, e]: every returned stamp is an input stamp moved by at
+            # most J (one input stamp each), and an input stamp may be MISSING only if a move of at most J can take it out of [s, e]
             if any(not s <= x <= e for x in out):
                 bad.append(("in_support", "a returned timestamp lies outside the kept time support"))
-            if len(out) > len(ts) or any(all(abs(x - t) > J for t in ts) for x in out):
-                bad.append(("bound", "a returned timestamp is farther than max_jitter from every input timestamp"))
-    if out != sorted(out):
-        bad.append(("sorted", "result not sorted"))
+            elif len(out) > len(ts):
+                bad.append(("count", "support kept, yet %d timestamps in, %d out" % (len(ts), len(out))))
+            elif not matchable(out, ts, J, [True] * len(ts)):
+                bad.append(("bound", "the returned timestamps are not distinct input timestamps moved by at most max_jitter each"))
+            elif not matchable(out, ts, J, [t - J < s or t + J > e for t in ts]):
+                bad.append(("dropped_inside", "a timestamp that no move of at most max_jitter can take out of the kept support is missing from the result"))
     return bad
 
 
@@ -225,20 +257,32 @@ def expected_free(op, ts, dr_vals):
 
 def judge_ts(op, ts, s, e, p, r):
     """-> list of violation dicts (without input)"""
+    empty = not len(ts)
     if r[0] == "exc":
-        return [{"key": {"op": op, "kind": "Ts", "part": "exception", "exception": r[1]}, "what": "%s(Ts) raised %s" % (op, r[1])}]
+        return [{"key": {"op": op, "kind": "Ts", "part": "exception", "exception": r[1], "empty_input": empty}, "what": "%s(Ts) raised %s" % (op, r[1])}]
     _, out, sup = r
-    v = [{"key": {"op": op, "kind": "Ts", "part": part}, "what": "%s(Ts): %s" % (op, what), "impl": out}
+    v = [{"key": {"op": op, "kind": "Ts", "part": part, "empty_input": empty}, "what": "%s(Ts): %s" % (op, what), "impl": out}
          for part, what in oracle_member(op, ts, s, e, p, out, recomputed=not support_kept(op, p))]
-    if support_kept(op, p) and sup != [(s, e)]:
-        v.append({"key": {"op": op, "kind": "Ts", "part": "support"}, "what": "%s(Ts): the time support is not kept" % op, "impl": sup, "expected": [(s, e)]})
+    if support_kept(op, p) and sup != in_support_of(ts, s, e):
+        v.append({"key": {"op": op, "kind": "Ts", "part": "support", "empty_input": empty}, "what": "%s(Ts): the time support is not kept" % op, "impl": sup,
+                  "expected": in_support_of(ts, s, e)})
     return v
+
+
+def kept_by_draws(ts, s, e, out, dvals, tol):
+    """jitter_timestamps(keep_tsupport=True) against the RECORDED draws: the result is the stamps t_k + d_k that fall inside [s, e]
+    (C20_jitter_keep_support). tol = 1 tick when the draws are real floats (t + d is rounded to 1e-9 once, the recorded d separately)"""
+    cand = sorted(t + d for t, d in zip(ts, dvals))
+    return len(dvals) == len(ts) and matchable(sorted(out), cand, tol, [not (s + tol <= c <= e - tol) for c in cand])
 
 
 def judge_group(op, keys, tss, s, e, p, r, draws):
     kind = "TsGroup"
-    free = [expected_free(op, ts, d) for ts, d in zip(tss, draws)] if (not support_kept(op, p)) and len(draws) == len(tss) else [list(t) for t in tss]
-    degenerate = [len(set(f)) <= 1 for f in free]
+    # the patterns of the known findings are computed from the RESULT the recorded draws imply; when the recorded draws do not line up
+    # with the members (the call stopped half-way) no pattern is assigned
+    aligned = len(draws) == len(tss) and all(len(d) == (len(ts) if op == "jitter_timestamps" else max(len(ts) - 1, 0)) for ts, d in zip(tss, draws))
+    free = [expected_free(op, ts, d) for ts, d in zip(tss, draws)] if (not support_kept(op, p)) and aligned else [list(t) for t in tss]
+    degenerate = [aligned and len(set(f)) <= 1 for f in free]
     if r[0] == "exc":
         key = {"op": op, "kind": kind, "part": "exception", "exception": r[1]}
         if r[1] == "IndexError" and op == "shuffle_ts_intervals" and any(len(t) == 0 for t in tss):
@@ -255,7 +299,7 @@ def judge_group(op, keys, tss, s, e, p, r, draws):
     for i, (ts, out) in enumerate(zip(tss, outs)):
         for part, what in oracle_member(op, ts, s, e, p, out, recomputed=not kept):
             key = {"op": op, "kind": kind, "part": part}
-            if not kept and len(out) < len(ts):
+            if not kept and aligned and len(out) < len(ts):
                 lost = list(free[i])
                 for x in out:
                     if x in lost:
@@ -422,7 +466,8 @@ def run(res, tier, seed):
                 "(B) TsGroup: seeded random groups of 1..4 members (empty / single-stamp / duplicate members) with lattice draws. (C) larger random Ts/TsGroup, n <= 40, lattice draws. "
                 "(D) NumPy's real generator, seeded, 200 (quick) / 5000 (thorough) seeds x 4 generators x Ts/TsGroup, statement oracle only. (E) shuffle on ns-resolution stamps. "
                 "(F) shift/jitter/resample with ns-resolution stamps and draws (a shift landing exactly on a multiple of the support length may come out as end instead of start: float_ambiguous). "
-                "Every (A)(B)(C)(E)(F) case is also compared with the extracted Coq model fed the recorded draws. non-trivial = the draw changes the series (result != input)")
+                "(G) the EMPTY Ts x 3 origins x 4 generators x every parameter set (5 shift ranges, jitter keep both ways): no exception, nothing out. "
+                "Every (A)(B)(C)(E)(F)(G) case is also compared with the extracted Coq model fed the recorded draws. non-trivial = the draw changes the series (result != input)")
     res.exhaustive = True
     lines, pending = [], []
 
@@ -577,7 +622,25 @@ def run(res, tier, seed):
                 pending.append(("TsGroup", inp, r))
         res.count("F:" + op + "_ns")
 
-    # model comparison for (A)(B)(C)(E)(F)
+    # (G) the empty Ts (its support is empty, see ASSUMPTIONS): nothing in, nothing out, no exception - for every generator and parameter
+    for o in ORIGINS:
+        s, e = o, o + 8 * U
+        for op in OPS:
+            plist = SHIFT_PARAMS if op == "shift_timestamps" else ([{"J": U, "keep": False}, {"J": U, "keep": True}] if op == "jitter_timestamps" else [{}])
+            for p in plist:
+                dr = Draws("lattice", rng=random.Random(seed + 5))
+                r = run_ts(nap, op, [], s, e, p, dr)
+                draws = dr.flat()
+                inp = {"kind": "Ts", "op": op, "ts": [], "support": [s, e], "params": p, "draws": draws}
+                res.case(("G", op, s, str(p)), nontrivial=False)
+                res.count("G:empty_Ts")
+                record(res, judge_ts(op, [], s, e, p, r), inp)
+                if r[0] == "ok":       # the model never raises on an empty series; an exception is already reported above
+                    mdraws = draws if draws else [[0] if op == "shift_timestamps" else []]
+                    lines.append(line_ts(op, [], s, e, p, mdraws))
+                    pending.append(("Ts", inp, r))
+
+    # model comparison for (A)(B)(C)(E)(F)(G)
     outm = C.run_model(lines, driver="driver_c20")
     for (kind, inp, r), om in zip(pending, outm):
         if om.startswith("ERR"):
@@ -634,6 +697,14 @@ def run(res, tier, seed):
             inp = {"kind": "Ts", "op": op, "ts": ts, "support": [s, e], "params": p, "numpy_seed": sd}
             res.case(("D", "Ts", op, sd), nontrivial=r[0] == "ok" and r[1] != ts)
             record(res, judge_ts(op, ts, s, e, p, r), inp)
+            if op == "jitter_timestamps" and p["keep"] and r[0] == "ok":
+                res.count("D:jitter_keep_checked_against_recorded_draws")
+                if len(r[1]) < len(ts):
+                    res.count("D:jitter_keep_dropped_some")
+                dv = dr.flat()
+                if len(dv) != 1 or not kept_by_draws(ts, s, e, r[1], dv[0], 1):
+                    res.disagreements.append({"op": op, "kind": "Ts", "input": dict(inp, draws=dv), "impl": r[1:3],
+                                              "what": "keep_tsupport=True: the result is not the stamps t_k + d_k (recorded draws) that fall inside the support"})
             keys = sorted(rng.sample(range(0, 30), rng.randint(2, 4)))
             tss = [rand_ts(rng, o, L, 12) for _ in keys]
             if op in ("jitter_timestamps", "shuffle_ts_intervals"):
@@ -643,6 +714,11 @@ def run(res, tier, seed):
             inp = {"kind": "TsGroup", "op": op, "keys": keys, "tss": tss, "support": [s, e], "params": p, "numpy_seed": sd}
             res.case(("D", "TsGroup", op, sd), nontrivial=r[0] == "ok" and r[2] != tss)
             record(res, judge_group(op, keys, tss, s, e, p, r, align_draws(op, tss, dr.flat())), inp)
+            if op == "jitter_timestamps" and p["keep"] and r[0] == "ok" and r[1] == list(keys):
+                dv = dr.flat()
+                if len(dv) != len(tss) or not all(kept_by_draws(t, s, e, o, d, 1) for t, o, d in zip(tss, r[2], dv)):
+                    res.disagreements.append({"op": op, "kind": "TsGroup", "input": dict(inp, draws=dv), "impl": r[1:4],
+                                              "what": "keep_tsupport=True: a member is not its stamps t_k + d_k (recorded draws) that fall inside the support"})
             res.count("D:" + op, 2)
 
 
